@@ -78,6 +78,14 @@ def union_prelude(t):
 
 _preluded = set()
 _siblings = set()
+CAPMODE = [False]
+
+
+def initial_value(t, vmode):
+    CAPMODE[0] = vmode == "cap"
+    if vmode == "cap":
+        return cons.cap_transform(t, xt.gen(t, "ramp"))[1]
+    return xt.gen(t, vmode)
 
 
 def sibling_prelude(t):
@@ -110,13 +118,23 @@ def build(t, v0, pname, hist, salt=0):
     s = State()
     union_prelude(t)
     sibling_prelude(t)
-    o = cons.execute(t, v0, "py" if xt.py_expressible(t, v0) else "nd", pname, salt)
+    if CAPMODE[0]:
+        # value alphabet `cap`: every string of the initial object is created from an integer capacity (it reads back empty);
+        # the room fixed at its creation is that capacity (sizes that are not whole slots), one byte of it for the terminator
+        o = cons.execute(t, xt.gen(t, "ramp"), "cap", pname, salt)
+    else:
+        o = cons.execute(t, v0, "py" if xt.py_expressible(t, v0) else "nd", pname, salt)
     if o.error is not None:
         raise o.error
     s.t, s.o, s.h, s.buf = t, o, o.obj, o.buf
     s.mv = v0
     s.pl = o.pl
     s.rooms = {p: string_room(lv) for p, lt, lv in xt.leaf_paths(t, v0) if lt[0] == "Str"}
+    if CAPMODE[0]:
+        parts = []
+        xt.decode(t, place.whole(s.h._buffer), int(s.h._offset), parts, issues=[])
+        sizes = {p_.path: p_.size for p_ in parts}
+        s.rooms = {p: max(0, sizes[tuple(p)] - 8 - 1) for p in s.rooms}
     s.view = None
     s.foreign = {}
     # a view that exists from the start; both long-lived handles are read in full after construction and after every
@@ -465,7 +483,7 @@ def ev_features(ev, t, mv):
 def explore(t, vmode, pname, depth, opts, judge, res, salt=0, seen=None, menu=None):
     """BFS to `depth` from the initial case (t, vmode, pname).
     judge(pre_state_builder, s_before, ev, s_after_or_exc) -> list of violation dicts; called on every transition."""
-    v0 = xt.gen(t, vmode)
+    v0 = initial_value(t, vmode)
     try:
         s0 = build(t, v0, pname, [], salt)
     except Exception as e:
@@ -516,7 +534,7 @@ def explore(t, vmode, pname, depth, opts, judge, res, salt=0, seen=None, menu=No
 def replay_case(case, opts, judge, menu=None):
     """re-execute one recorded transition: the menus are regenerated deterministically from the state"""
     t = xt.retuple(case["type"])
-    v0 = xt.gen(t, case["vmode"])
+    v0 = initial_value(t, case["vmode"])
     menu = menu or events
     hist = []
     for d, i in enumerate(case["hist_idx"]):
